@@ -488,16 +488,32 @@ func healthExec(in core.Sexp) string {
 	return b.String()
 }
 
+func hcSplitVerdict(s string) (out, verdict string) {
+	if i := strings.Index(s, " | "); i >= 0 {
+		return s[:i], strings.TrimSpace(s[i+3:])
+	}
+	return s, ""
+}
+
 // healthExtra makes sure a listed finding cannot crowd a new one out of the
 // result: the runner keeps at most 200 findings per run, and the rounds that
-// run during a master outage produce the listed classes by the hundred before
-// the findings on disagreeing cases are appended.  Keep three findings per
-// class, and put the oracle's verdict on the recorded disagreements first.
+// read lag during a master outage produce the listed class of C28 by the
+// hundred before the findings on disagreeing cases are appended.  Keep three
+// findings per class, and put the oracle's verdict on the recorded
+// disagreements first.
 func healthExtra(r *core.Run) {
 	res := r.Res
 	perClass := map[string]int{}
 	var kept []core.Finding
 	for _, f := range res.Violations {
+		if cls, ok := strings.CutPrefix(f.Class, "impl-differs "); ok {
+			if _, mv := hcSplitVerdict(f.Model); mv == "viol "+cls {
+				// the oracle says the same of the model's own result on this input (a listed
+				// class met on the way): the verdict is not about the difference; the case stays
+				// among the disagreements and is reported as broken correspondence
+				continue
+			}
+		}
 		if perClass[f.Class] < 3 {
 			perClass[f.Class]++
 			kept = append(kept, f)
@@ -520,6 +536,12 @@ func healthExtra(r *core.Run) {
 					continue
 				}
 				d := res.Disagreements[idx[k]]
+				if _, mv := hcSplitVerdict(d.Model); mv == a {
+					// the oracle says the same of the model's own result (a listed class met on
+					// the way): the verdict is not about the difference, leave the case to the
+					// runner's report of the broken correspondence
+					continue
+				}
 				cls := "impl-differs " + strings.TrimSpace(strings.TrimPrefix(a, "viol"))
 				if perClass[cls] < 3 {
 					perClass[cls]++
